@@ -203,6 +203,11 @@ func (r *RegistrationDB) needFilter(key string, subkey string) bool {
 func (r *RegistrationDB) FindRegistrations(category string, key string, subkey string) Registrations {
 	r.RLock()
 	defer r.RUnlock()
+	return r.findRegistrations(category, key, subkey)
+}
+
+// the caller holds the lock
+func (r *RegistrationDB) findRegistrations(category string, key string, subkey string) Registrations {
 	if !r.needFilter(key, subkey) {
 		k := Registration{category, key, subkey}
 		if _, ok := r.registrationMap[k]; ok {
@@ -223,6 +228,11 @@ func (r *RegistrationDB) FindRegistrations(category string, key string, subkey s
 func (r *RegistrationDB) FindProducers(category string, key string, subkey string) Producers {
 	r.RLock()
 	defer r.RUnlock()
+	return r.findProducers(category, key, subkey)
+}
+
+// the caller holds the lock
+func (r *RegistrationDB) findProducers(category string, key string, subkey string) Producers {
 	if !r.needFilter(key, subkey) {
 		k := Registration{category, key, subkey}
 		return ProducerMap2Slice(r.registrationMap[k])
@@ -248,6 +258,11 @@ func (r *RegistrationDB) FindProducers(category string, key string, subkey strin
 func (r *RegistrationDB) LookupRegistrations(id string) Registrations {
 	r.RLock()
 	defer r.RUnlock()
+	return r.lookupRegistrations(id)
+}
+
+// the caller holds the lock
+func (r *RegistrationDB) lookupRegistrations(id string) Registrations {
 	results := Registrations{}
 	for k, producers := range r.registrationMap {
 		if _, exists := producers[id]; exists {
